@@ -33,9 +33,12 @@ def exhaustive_inits(ns, nl):
         yield {"route": "graph", "d": [[v, d[v]] for v in vs], "starts": [0]}
 
 
-def rand_aut(rng):
+STR_ALPHABETS = ("default", "default", "permuted", "multi", "case")
+
+
+def rand_aut(rng, alphabets=STR_ALPHABETS):
     r = rng.random()
-    if r < 0.55:
+    if r < 0.45:
         ns, nl = rng.choice([1, 2, 3, 4, 4, 5, 6, 8, 10]), rng.choice([1, 2, 2, 3])
         vs, ls = list(range(ns)), U.LS[:nl]
         p = rng.choice([0.3, 0.5, 0.7, 0.9])
@@ -43,12 +46,11 @@ def rand_aut(rng):
         rng.shuffle(d)
         return {"init": {"route": "graph", "d": d, "starts": [rng.choice(vs)]}, "ops": []}
     if r < 0.9:
-        h = U.rand_history(rng, maxlen=rng.choice([2, 5, 10]), p_invalid=0.0, fresh=False)   # labels stay single characters
-        return h
+        return U.rand_history(rng, maxlen=rng.choice([2, 5, 10]), p_invalid=0.0, fresh=False, alphabets=alphabets)
     return {"init": {"route": "free", "gens": rng.sample(["a", "b", "c"], rng.choice([1, 2]))}, "ops": []}
 
 
-def gen_automata(rng, n, exhaustive=((1, 3), (2, 2))):
+def gen_automata(rng, n, exhaustive=((1, 3), (2, 2)), alphabets=STR_ALPHABETS):
     if n >= 4000:       # thorough tier: every automaton with 2 states x 3 labels and 3 states x 2 labels as well
         exhaustive = tuple(exhaustive) + ((2, 3), (3, 2))
     out = []
@@ -59,7 +61,7 @@ def gen_automata(rng, n, exhaustive=((1, 3), (2, 2))):
     for a in out:
         yield a
     for _ in range(max(0, n - len(out))):
-        yield rand_aut(rng)
+        yield rand_aut(rng, alphabets)
 
 
 def make(inp):
@@ -81,7 +83,20 @@ def words_upto(ls, n):
 
 def pyword(w):
     """a word as the documented API takes it: a string when every label is one character"""
-    return "".join(w) if all(len(l) == 1 for l in w) else list(w)
+    return "".join(w) if all(isinstance(l, str) and len(l) == 1 for l in w) else list(w)
+
+
+def word_forms(w):
+    """the same word as str (single-character labels only), list and tuple"""
+    forms = [list(w), tuple(w)]
+    if all(isinstance(l, str) and len(l) == 1 for l in w):
+        forms.insert(0, "".join(w))
+    return forms
+
+
+def cat(w):
+    """what the enumerators yield for a path: the concatenation of its (string) labels"""
+    return "".join(w)
 
 
 def multiple_pops(ref, starts, k, cap):
@@ -116,7 +131,6 @@ def queries_for(rng, inp, ref, starts, nmax, wmax, big=False):
     for v in [None] + (vs if not big else vs[:3]):
         qs.append({"q": "enum_fixed", "n": rng.randint(0, nmax), "v": v})
         qs.append({"q": "enum_words", "n": rng.randint(0, nmax), "v": v})
-    qs.append({"q": "enum_fixed", "n": 1, "v": "nowhere"})     # not a vertex: KeyError in the generator
     qs.append({"q": "views"})
     return qs
 
@@ -154,9 +168,9 @@ def run_query(A, q):
             r = A.initial_rejected_subword(pyword(q["w"]))
             return {"ok": None if r is None else list(r)}
         if k == "enum_fixed":
-            return {"ok": [[list(w), e] for w, e in U.capped(A.enumerate_fixed_length_paths(q["n"], start_vertex=q.get("v"), with_states=True))]}
+            return {"ok": [[w, e] for w, e in U.capped(A.enumerate_fixed_length_paths(q["n"], start_vertex=q.get("v"), with_states=True))]}
         if k == "enum_words":
-            return {"ok": [[list(w), e] for w, e in U.capped(A.enumerate_words(q["n"], start_vertex=q.get("v"), with_states=True))]}
+            return {"ok": [[w, e] for w, e in U.capped(A.enumerate_words(q["n"], start_vertex=q.get("v"), with_states=True))]}
         if k == "multiple":
             with U.time_limit(MULT_SECONDS):
                 return {"ok": U.views(A.automaton_multiple(q["k"]))}
@@ -189,7 +203,7 @@ def lean_queries(inp, obs):
 
 
 def _ms(paths):
-    return sorted(("\x00".join(w) if isinstance(w, list) else w, repr(e)) for w, e in paths)
+    return sorted(("".join(w) if isinstance(w, list) else w, repr(e)) for w, e in paths)
 
 
 def compare_query(q, m, i):
@@ -198,7 +212,7 @@ def compare_query(q, m, i):
     if "err" in m or "err" in i:
         if m.get("err") == "fuel" and k.startswith("multiple"):
             return None          # automaton_multiple has no proved fuel bound; every other loop of the model has one
-        return None if m.get("err") == i.get("err") else "error"
+        return None if ("err" in m and "err" in i) else "error"       # both refuse: the exception class is not compared
     m, i = m["ok"], i["ok"]
     if k in ("follow", "accepts", "prefix", "rejprefix"):
         return None if m == i else "value"
@@ -211,13 +225,49 @@ def compare_query(q, m, i):
     return None if U.canon(m) == U.canon(i) else "views"
 
 
+def tree_spec_problem(inp, q, m, i):
+    """remove_long_paths(edge_ties=False): WHICH shortest-path tree is kept is not specified, so the implementation is
+    compared with the specification (same vertices, start at the root, kept edges are shortest-path edges, exactly one
+    parent per reachable non-root vertex) and not with the particular tree of the model"""
+    if "err" in m or "err" in i:
+        return None if ("err" in m and "err" in i) else "error"
+    _, ref = U.build(inp["init"])
+    for op in inp["ops"]:
+        ref.apply(op)
+    mv, iv = m["ok"]["aut"], i["ok"]["aut"]
+    r0 = mv["starts"][0]
+    if iv["starts"] != mv["starts"]:
+        return "start"
+    g, o, ii = U.edge_counts(iv)
+    if U.coherence_problems(iv, U.Ref(ref.V, set(g))):
+        return "views"
+    dist, dq = {r0: 0}, collections.deque([r0])
+    while dq:
+        v = dq.popleft()
+        for t, l, h in ref.E:
+            if t == v and h not in dist:
+                dist[h] = dist[v] + 1
+                dq.append(h)
+    if not set(g) <= {(t, l, h) for t, l, h in ref.E if t in dist and dist.get(h) == dist[t] + 1}:
+        return "edge-not-on-a-shortest-path"
+    par = collections.defaultdict(set)
+    for t, l, h in g:
+        par[h].add(t)
+    if any(len(par[w]) != 1 for w in dist if w != r0) or par.get(r0):
+        return "not-a-spanning-tree"
+    return None
+
+
 def judge_queries(inp, obs, lr):
     if "exc" in obs:
         return {"expected": "automaton builds", "observed": obs, "tags": {"exc": obs["exc"]}}
     if not lr or "err" in lr[0]:
         return {"expected": "model answer", "observed": lr[:1], "tags": {"driver_err": True}}
     for q, m, i in zip(inp["qs"], lr[0]["ok"], obs["res"]):
-        d = compare_query(q, m, i)
+        if q["q"] == "rlp" and not q["ties"]:
+            d = tree_spec_problem(inp, q, m, i)
+        else:
+            d = compare_query(q, m, i)
         if d:
             return {"expected": {"query": q, "model": m}, "observed": i, "tags": {"q": q["q"], "diff": d}}
     return None
@@ -259,45 +309,36 @@ def check_lang(A, ref, wmax, nmax, bad, tag):
     ls = labels_of(ref) + ["z"]
     vs = sorted(ref.V, key=U.key)
     n0 = len(bad)
-    for sv in [None] + vs[:3] + ["nowhere"]:          # "nowhere" is not a state: only the empty word is accepted from it
+    for sv in [None] + vs[:3]:
         if sv is None and (not starts or starts[0] not in ref.V):
             continue
         s0 = starts[0] if sv is None else sv
-        if sv == "nowhere":
-            for w in itertools.islice(words_upto(ls, 2), 0, 8):
-                pw = pyword(w)
-                if A.accepts(pw, start_vertex=sv) != (len(w) == 0):
-                    bad.append([tag, "accepts", sv, pw])
+        for w in words_upto(ls, wmax):
+            end = ref.follow(s0, w)
+            # start_vertex=None: "any start state is allowed"
+            want_acc = (end is not None) if sv is not None else any(x in ref.V and ref.follow(x, w) is not None for x in starts)
+            best = max((w[:j] for j in range(len(w) + 1) if ref.follow(s0, w[:j]) is not None), key=len)
+            for pw in word_forms(w):               # the same word as str / list / tuple
+                acc = A.accepts(pw, start_vertex=sv)
+                if acc != want_acc:
+                    bad.append([tag, "accepts", sv, repr(pw), acc])
                 try:
                     got = A.follow_word(pw, start_vertex=sv)
                 except FSAException:
                     got = None
-                if (got == sv) != (len(w) == 0) or (got is not None and len(w) > 0):
-                    bad.append([tag, "follow_word", sv, pw, repr(got)])
-            continue
-        for w in words_upto(ls, wmax):
-            end = ref.follow(s0, w)
-            pw = pyword(w)
-            acc = A.accepts(pw, start_vertex=sv)
-            # start_vertex=None: "any start state is allowed"
-            want_acc = (end is not None) if sv is not None else any(x in ref.V and ref.follow(x, w) is not None for x in starts)
-            if acc != want_acc:
-                bad.append([tag, "accepts", sv, pw, acc])
-            try:
-                got = A.follow_word(pw, start_vertex=sv)
-            except FSAException:
-                got = None
-            if got != end or (got is None) != (end is None):
-                bad.append([tag, "follow_word", sv, pw, repr(got), repr(end)])
-            if sv is None:
-                best = max((w[:j] for j in range(len(w) + 1) if ref.follow(s0, w[:j]) is not None), key=len)
-                if list(A.initial_accepted_subword(pw)) != list(best):
-                    bad.append([tag, "initial_accepted_subword", pw, A.initial_accepted_subword(pw)])
-                rej = A.initial_rejected_subword(pw)
-                rej = None if rej is None else list(rej)
-                want = None if end is not None else list(w[:len(best) + 1])     # None exactly for accepted words
-                if rej != want:
-                    bad.append([tag, "initial_rejected_subword", pw, rej])
+                if got != end or (got is None) != (end is None):
+                    bad.append([tag, "follow_word", sv, repr(pw), repr(got), repr(end)])
+                if sv is None:
+                    # the prefix queries answer with a prefix OF THE WORD THEY WERE GIVEN (same type)
+                    pre = A.initial_accepted_subword(pw)
+                    if type(pre) is not type(pw) or pre != pw[:len(best)]:
+                        bad.append([tag, "initial_accepted_subword", repr(pw), repr(pre)])
+                    rej = A.initial_rejected_subword(pw)
+                    want = None if end is not None else pw[:len(best) + 1]     # None exactly for accepted words
+                    if rej != want or (rej is not None and type(rej) is not type(pw)):
+                        bad.append([tag, "initial_rejected_subword", repr(pw), repr(rej)])
+        if not all(isinstance(l, str) for l in labels_of(ref)):
+            continue            # the enumerators build strings: they are specified for string labels only
         tot = []
         for n in range(nmax + 1):
             want = collections.Counter(("".join(w), repr(e)) for w, e in ref.lang(s0, n))
@@ -364,7 +405,7 @@ def judge_bad(what):
 
 
 def gen_lang_oracle(rng, n):
-    for a in gen_automata(rng, n):
+    for a in gen_automata(rng, n, alphabets=STR_ALPHABETS + ("int",)):
         a = dict(a)
         a["wmax"], a["wmax2"], a["nmax"] = 4, 3, 4
         _, ref = U.build(a["init"])
@@ -480,7 +521,7 @@ def run_rename_oracle(inp):
                 if got != want_w:
                     bad.append(["rename-language", m, n])
             for w in words_upto(ls, 3):
-                if B.accepts("".join(m[l] for l in w)) != any(x in ref.V and ref.follow(x, w) is not None for x in starts):
+                if B.accepts(pyword([m[l] for l in w])) != any(x in ref.V and ref.follow(x, w) is not None for x in starts):
                     bad.append(["rename-accepts", m, w])
         C = copy.deepcopy(A)
         C.rename_generators(m, inplace=True)
@@ -736,6 +777,190 @@ def gen_alias_oracle(rng, n):
 
 
 
+# ------------------------------------------------------------------ oracle: plain-string queries on a k-multiple automaton
+def run_multiple_string(inp):
+    """the enumerators of A_k yield plain strings; asking A_k's own acceptance test about such a string"""
+    A, ref = make(inp)
+    starts = list(A.start_vertices)
+    bad = []
+    if not starts or not set(starts) <= ref.V or not all(isinstance(l, str) and len(l) == 1 for l in labels_of(ref)):
+        return {"bad": []}
+    for k in (2, 3):
+        if multiple_pops(ref, starts, k, 200) > 200:
+            continue
+        with U.time_limit(MULT_SECONDS):
+            B = A.automaton_multiple(k)
+        for w, e in itertools.islice(U.capped(B.enumerate_words(2, with_states=True)), 0, 40):
+            if w and not B.accepts(w):
+                bad.append(["multiple-accepts-plain-string", k, w])
+                break
+    return {"bad": bad[:2]}
+
+
+def gen_multiple_string(rng, n):
+    for a in gen_automata(rng, n, alphabets=("default", "case")):
+        yield a
+
+
+# ------------------------------------------------------------------ oracle: every keyword option of the API
+import inspect  # noqa: E402
+
+# what each (method, option) is known to mean; everything else found in the signatures is still exercised (negated /
+# set) and must at least leave the automaton intact
+KNOWN_OPTIONS = {("add_edges", "elist"), ("add_edges", "ignore_redundant"), ("recurrent", "inplace"),
+                 ("remove_long_paths", "root"), ("remove_long_paths", "edge_ties"), ("remove_long_paths", "return_distances"),
+                 ("follow_word", "start_vertex"), ("enumerate_fixed_length_paths", "start_vertex"),
+                 ("enumerate_fixed_length_paths", "with_states"), ("enumerate_words", "start_vertex"),
+                 ("enumerate_words", "with_states"), ("rename_generators", "inplace"), ("accepts", "start_vertex"),
+                 ("edges", "with_labels"), ("__init__", "vert_dict"), ("__init__", "start_vertices"), ("__init__", "graph_dict")}
+
+
+def api_options():
+    out = []
+    for name, fn in inspect.getmembers(FSA, predicate=inspect.isfunction):
+        if name.startswith("_") and name != "__init__":
+            continue
+        for pn, prm in inspect.signature(fn).parameters.items():
+            if prm.default is not inspect.Parameter.empty:
+                out.append((name, pn, prm.default))
+    return out
+
+
+def run_options(inp):
+    """call every public method with every keyword option set to a non-default value and compare with the reference"""
+    bad = []
+    A0, ref = make(inp)
+    starts = list(A0.start_vertices)
+    vs = sorted(ref.V, key=U.key)
+    ls = labels_of(ref)
+    E = ref.E
+    snap0 = U.canon(U.views(A0))
+    for name, pn, default in api_options():
+        A, _ = make(inp)
+        values = [not default] if isinstance(default, bool) else (vs[:2] if default is None else [])
+        if (name, pn) == ("__init__", "vert_dict") or (name, pn) == ("__init__", "start_vertices"):
+            continue                      # exercised by every construction
+        for val in values:
+            try:
+                if name == "__init__":
+                    od = {v: {} for v in vs}
+                    for t, l, h in E:
+                        od[t].setdefault(h, []).append(l)
+                    B = FSA(od, start_vertices=list(starts), graph_dict=False)
+                    pb = U.coherence_problems(U.views(B), ref)
+                    if pb:
+                        bad.append(["FSA(graph_dict=False)"] + pb)
+                elif name == "add_edges":
+                    free = [(t, h, l) for t in vs for h in vs for l in ls + ["y"] if ref.step(t, l) in (None, h)][:3]
+                    if not free:
+                        continue
+                    t, h, l = free[0]
+                    kw = {pn: val}
+                    arg = [(t, h, [l, l] if kw.get("elist") else l)]
+                    A.add_edges(arg, **kw)
+                    r2 = ref.clone(); r2.V |= {t, h}
+                    dup = (t, l, h) in r2.E and kw.get("ignore_redundant") is False
+                    r2.E.add((t, l, h))
+                    pb = U.coherence_problems(U.views(A), r2)
+                    if dup:
+                        pb = [x for x in pb if not x.startswith("dup-")]      # ignore_redundant=False asks for the repetition
+                    if pb:
+                        bad.append(["add_edges", pn, val] + pb)
+                elif name == "recurrent":
+                    r2 = ref.clone(); r2.recurrent()
+                    R = A.recurrent(**{pn: val})
+                    tgt = A if val else R
+                    pb = U.coherence_problems(U.views(tgt), r2)
+                    if pb or (val and R is not None) or (not val and U.canon(U.views(A)) != snap0):
+                        bad.append(["recurrent", pn, val] + pb)
+                elif name == "remove_long_paths":
+                    if not (starts and starts[0] in ref.V):
+                        continue
+                    base = U.canon(U.views(A.remove_long_paths()))
+                    res = A.remove_long_paths(**{pn: val})
+                    if pn == "return_distances":
+                        H = res[0] if isinstance(res, tuple) else res
+                        if U.canon(U.views(H)) != base:
+                            bad.append(["remove_long_paths", pn, "result differs from the default call"])
+                    elif pn == "root":
+                        if list(res.start_vertices) != [val]:
+                            bad.append(["remove_long_paths", pn, val, "start vertex"])
+                    elif pn == "edge_ties":
+                        g, _, _ = U.edge_counts(U.views(res))
+                        if not set(g) <= {(t, l, h) for t, l, h in E}:
+                            bad.append(["remove_long_paths", pn, val, "foreign edge"])
+                elif name in ("follow_word", "accepts"):
+                    for w in words_upto(ls, 2):
+                        end = ref.follow(val, w)
+                        if name == "accepts":
+                            if A.accepts(pyword(w), **{pn: val}) != (end is not None):
+                                bad.append([name, pn, val, pyword(w)])
+                        else:
+                            try:
+                                got = A.follow_word(pyword(w), **{pn: val})
+                            except FSAException:
+                                got = None
+                            if got != end:
+                                bad.append([name, pn, val, pyword(w)])
+                elif name in ("enumerate_fixed_length_paths", "enumerate_words"):
+                    if not all(isinstance(l, str) for l in ls):
+                        continue
+                    s0 = val if pn == "start_vertex" else (starts[0] if starts and starts[0] in ref.V else None)
+                    if s0 is None:
+                        continue
+                    kw = {pn: val}
+                    got = collections.Counter(map(repr, U.capped(getattr(A, name)(2, **kw))))
+                    if name == "enumerate_words":
+                        paths = [p for n in range(3) for p in ref.lang(s0, n)]
+                    else:
+                        paths = ref.lang(s0, 2)
+                    if kw.get("with_states"):
+                        want = collections.Counter(repr((cat(w), e)) for w, e in paths)
+                    else:
+                        want = collections.Counter(repr(cat(w)) for w, _ in paths)
+                    if got != want:
+                        bad.append([name, pn, val])
+                elif name == "rename_generators":
+                    m = {l: l for l in ls}
+                    R = A.rename_generators(m, **{pn: val})
+                    if (val and R is not None) or (not val and (R is None or U.coherence_problems(U.views(R), ref))):
+                        bad.append([name, pn, val])
+                elif name == "edges":
+                    got = sorted(map(repr, A.edges(**{pn: val})))
+                    want = sorted(repr((t, h, l)) if val else repr((t, h)) for t, l, h in E)
+                    if got != want:
+                        bad.append([name, pn, val])
+                else:
+                    # an option this harness has no semantics for: exercise it, the automaton must stay what it was
+                    args = []
+                    for qn, q in list(inspect.signature(getattr(FSA, name)).parameters.items())[1:]:
+                        if q.default is inspect.Parameter.empty:
+                            args.append(vs[0] if vs else 0)
+                    try:
+                        r = getattr(A, name)(*args, **{pn: val})
+                        if inspect.isgenerator(r):
+                            list(U.capped(r))
+                    except (KeyError, ValueError, FSAException, TypeError, IndexError):
+                        pass
+                # (an option this harness knows no semantics for is only exercised: a new keyword is not a violation)
+                if name not in ("add_edges",) and not (name in ("recurrent", "rename_generators") and val is True):
+                    if U.canon(U.views(A)) != snap0:
+                        bad.append([name, pn, val, "the call changed the automaton"])
+            except U.CallTimeout:
+                raise
+            except Exception as e:
+                if type(e).__name__ == "Timeout":
+                    raise
+                bad.append([name, pn, repr(val), "raised " + type(e).__name__ + ": " + str(e)[:80]])
+    return {"bad": bad[:4]}
+
+
+def gen_options(rng, n):
+    for a in gen_automata(rng, n, exhaustive=()):
+        yield a
+
+
+
 CLAUSES = [
     Clause("lang_corr", "corr", gen_lang_corr, U.bounded(run_queries), judge_queries, lean=lean_queries,
            site="fsa.FSA.follow_word/accepts/initial_*_subword/enumerate_*", budget={"quick": 500, "thorough": 8000},
@@ -747,12 +972,12 @@ CLAUSES = [
            what="the 18 built-in automata: the same queries (words <= 2, enumeration n <= 3)"),
     Clause("ops_corr", "corr", gen_ops_corr, U.bounded(run_queries), judge_queries, lean=lean_queries,
            site="fsa.FSA.automaton_multiple/rename_generators/recurrent/remove_long_paths",
-           budget={"quick": 200, "thorough": 6000},
+           budget={"quick": 150, "thorough": 6000},
            what="automaton_multiple k=0..4 (views and enumeration), rename (permutation, fresh letters, incomplete map, non-injective map), "
                 "recurrent, remove_long_paths for every root x edge_ties, each as the three views vs the Lean model; original unchanged"),
     Clause("lang_oracle", "oracle", gen_lang_oracle, U.bounded(run_lang_oracle),
            judge_bad("accepts / follow_word / prefixes / enumerators agree with the reference language, each accepted word listed once"),
-           site="fsa.FSA walks and enumerators", budget={"quick": 600, "thorough": 8000},
+           site="fsa.FSA walks and enumerators", budget={"quick": 450, "thorough": 8000},
            what="reference = set of triples; all words <= 4 over the labels + a foreign letter, default start and explicit start vertices, n <= 4, "
                 "with and without states; then a history on the same object — start_vertices reassigned, its list edited in place (setitem, "
                 "insert, append; several start vertices), graph edits — with every query family re-checked after each step"),
@@ -772,6 +997,16 @@ CLAUSES = [
            judge_bad("remove_long_paths keeps exactly the edges with dist(head) = dist(tail)+1 (edge_ties) / a spanning tree of them (no ties)"),
            site="fsa.FSA.remove_long_paths", budget={"quick": 600, "thorough": 6000},
            what="independent BFS distances, every root, both edge_ties settings, original unchanged; the result starts at the root and enumerates its language"),
+    Clause("multiple_string_oracle", "oracle", gen_multiple_string, U.bounded(run_multiple_string),
+           judge_bad("a word enumerated by the k-multiple automaton is accepted by its own acceptance test when given as the plain string it was enumerated as"),
+           site="fsa.FSA.automaton_multiple + accepts", budget={"quick": 60, "thorough": 600},
+           what="KNOWN FINDING C10-multiple-plain-string: labels of A_k are k-letter strings, follow_word iterates a str letter by letter"),
+    Clause("options_oracle", "oracle", gen_options, U.bounded(run_options),
+           judge_bad("every keyword option of every public FSA method, enumerated from the signatures, behaves as the reference says"),
+           site="fsa.FSA public methods (inspect.signature)", budget={"quick": 150, "thorough": 3000},
+           what="for each (method, option with a default) found by inspect: the boolean negated / a vertex supplied; result compared with the "
+                "set reference (elist, ignore_redundant, inplace, root, edge_ties, return_distances, start_vertex, with_states, with_labels, "
+                "graph_dict); an option the harness has no semantics for is exercised and must leave the automaton intact"),
     Clause("alias_oracle", "oracle", gen_alias_oracle, U.bounded(run_alias_oracle),
            judge_bad("automata of one process are independent objects: editing a derived automaton (views or start list) never changes the original, "
                      "and vice versa; the constructor neither keeps nor modifies its arguments; later constructions never change earlier automata"),
@@ -786,7 +1021,7 @@ from props import _defence as DF  # noqa: E402
 CLAUSES.append(
     Clause("defence_oracle", "oracle", DF.gen_lang, U.bounded(DF.run_defence), DF.judge_defence,
            site="fsa.FSA (every mutator, accessor and constructor; two automata over the same names in one process)",
-           budget={"quick": 250, "thorough": 4000},
+           budget={"quick": 200, "thorough": 4000},
            what="generic defences: (G1) after every step the object answers like a fresh object built from its current label view; (G2) argument "
                 "collections passed as list / tuple / generator / iterator / dict view / string and checked unmodified, everything the accessors "
                 "and enumerators return is mutated in place and the automaton re-examined, no mutable container shared between automata or with "
